@@ -2782,18 +2782,13 @@ class Network(Cached):
         link_betweenness = self.graph.edge_betweenness()
 
         #  Initialize
-        result, ecount = np.zeros((self.N, self.N)), 0
+        result = np.zeros((self.N, self.N))
 
-        #  Get graph adjacency list
-        A_list = self.graph.get_adjlist()
-
-        #  Write link betweenness values to matrix
-        for i, Ai in enumerate(A_list):
-            for j in Ai:
-                #  Only visit links once
-                if i < j:
-                    result[i, j] = result[j, i] = link_betweenness[ecount]
-                    ecount += 1
+        #  Write link betweenness values to matrix, in the graph's edge order
+        for e, (i, j) in enumerate(self.graph.get_edgelist()):
+            result[i, j] = link_betweenness[e]
+            if not self.directed:
+                result[j, i] = link_betweenness[e]
         return result
 
     def edge_betweenness(self):
